@@ -2,13 +2,16 @@
 from ..codec import Rng, expand, spec_len
 from .. import oracle as o
 
+NROUTES = 16   # Choice production routes compiled into the driver (harness/src/ct.rs mkroute)
+
 ID = 'C18'
 RULE = ('truth tables: exhaustive 2^16 byte pairs for ct_eq/ct_ne and all 256 bytes for ct_zero/ct_nonzero (bitmaps); all pairs over a 64-bit boundary set plus random for the '
         'eight u64 predicates; byte arrays N = 0..=40 equal / differing in exactly one position (every position, both directions) plus borrow-rippling patterns for ct_lt/ct_ge '
-        '(big-endian order); slices and u64 arrays likewise; Choice algebra 2x2; CtOption; masked swap/set of u64 and i32 limb arrays (hook) for both choices; MacResult / Tag '
+        '(big-endian order); slices and u64 arrays likewise; Choice algebra, CtOption and the selectors for Choices produced along 16 routes (from a test, negated, double negated, from integer / array / slice comparisons, from and/or/xor); masked swap/set of u64 and i32 limb arrays (hook) for both choices; MacResult / Tag '
         'equality incl. unequal lengths; distinct = (helper, operand pattern)')
 ASSUMPTIONS = ["Python's ==, <, <=, >, >= on integers and bytes"]
 FLOORS = {'evaluations': 8000, 'distinct': 6000}
+THOROUGH_ROUNDS = 300   # thorough tier: generator passes with derived seeds (runner.gen_rounds)
 EXHAUSTIVE = False
 B64 = [0, 1, 2, 0x100000001, 0xfffffffeffffffff, 0x0000000100000000, 0xdeadbeefdeadbeef, (1 << 31) - 1, 1 << 31, (1 << 32) - 1, 1 << 32, (1 << 32) + 1, (1 << 63) - 1, 1 << 63, (1 << 63) + 1, (1 << 64) - 2, (1 << 64) - 1, 0x8000000080000000, 0x7fffffff7fffffff]
 
@@ -63,11 +66,15 @@ def gen(tier, seed):
                 yield '%s %s %s #u64arr-onepos' % (op, base.hex(), bytes(x).hex())
                 z = bytearray(8 * n); z[8 * pos + 7] = 0x80
                 yield '%s %s %s #u64arr-zero-onepos' % (op, bytes(z).hex(), bytes(8 * n).hex())
-    for a in '01':
-        for b in '01':
+    # a Choice is also produced by negation, by array / slice / integer comparisons and by the algebra ("routes" 1..15 of the driver):
+    # every consumer must treat it like the plain one
+    routes = ['%s' % a if k == 0 else '%sr%d' % (a, k) for a in '01' for k in range(NROUTES)]
+    for a in routes:
+        for b in routes:
             yield 'choice %s %s #choice' % (a, b)
+    for a in routes:
         yield 'ctopt %s %s #ctopt' % (a, rng.bytes(5).hex())
-        for n in (0, 1, 4, 5, 10, 16, 40):
+        for n in ((0, 1, 4, 5, 10, 16, 40) if len(a) == 1 else (5, 10)):
             x, y = rng.bytes(8 * n), rng.bytes(8 * n)
             yield 'swap64 %s %s %s #swap' % (a, x.hex() or '-', y.hex() or '-')
             yield 'set64 %s %s %s #swap' % (a, x.hex() or '-', y.hex() or '-')
@@ -146,14 +153,14 @@ def expected(f):
         z = not any(a)
         return [T(z), T(not z), T(a == b), T(a != b)]
     if op == 'choice':
-        a, b = f[1] == '1', f[2] == '1'
-        return [T(a and b), T(a or b), T(a != b), T(not a)]
+        a, b = f[1][0] == '1', f[2][0] == '1'
+        return [T(a and b), T(a or b), T(a != b), T(not a), T(a), T(b)]
     if op == 'ctopt':
-        return ['SOME:' + f[2] if f[1] == '1' else 'NONE']
+        return ['SOME:' + f[2] if f[1][0] == '1' else 'NONE']
     if op in ('swap64', 'swap32'):
-        return [f[3], f[2]] if f[1] == '1' else [f[2], f[3]]
+        return [f[3], f[2]] if f[1][0] == '1' else [f[2], f[3]]
     if op in ('set64', 'set32'):
-        return [f[3], f[3]] if f[1] == '1' else [f[2], f[3]]
+        return [f[3], f[3]] if f[1][0] == '1' else [f[2], f[3]]
     if op == 'macres_eq':
         e = expand(f[1]) == expand(f[2])
         return [T(e), T(e), T(not e)]
